@@ -99,3 +99,20 @@ def fagree (f : Func) (seed : Nat) : Option Bool :=
     if m.2.2 == .fuel then none
     else some (flowExecIR 400 f env 9 start ops 30 5 st == some m)
 end Flyt.GoIR.Gen
+
+namespace Flyt.GoIR.Gen
+/-! runBatch vs the model's runBatch -/
+def shapes : Array PrepShape := #[.results, .anys, .typed, .single, .nilv]
+def batchScenario (seed : Nat) : BatchCfg × BatchScript × Ctx :=
+  let (cfg0, _, ctx, _) := bscenario seed
+  let s := lcg (seed + 77)
+  let n := pick s 5
+  let cfg := { cfg0 with shape := shapes[pick (lcg s) 5]!, conc := if pick (lcg (lcg s)) 3 == 0 then 1 + pick s 3 else 0, hasPost := pick (lcg (s+1)) 4 != 0 }
+  let l := (List.range n).map fun j => if pick (s + j) 7 == 0 then Val.res (.tok (100 + j)) none else Val.tok (100 + j)
+  let prep : Out (List Val) := if pick (lcg (s + 3)) 8 == 0 then { res := .error 2, cancels := pick s 3 == 0 } else { res := .ok l, cancels := pick (lcg (s+4)) 9 == 0 }
+  let scr : BatchScript := { prep := prep, item := (fun i => { exec := (fun k => mkOut (s + 131 * i + 977 * k)), waitCancel := (fun k => pick (s + 7 * i + 31 * k) 6 == 0), fb := mkOut (s + 17 * i) }), post := mkAct (lcg (s + 9)) }
+  (cfg, scr, ctx)
+def batchAgree (f : Func) (seed : Nat) : Bool :=
+  let (cfg, scr, ctx) := batchScenario seed
+  runBatchIR 400 f .canceled 3 1 8 cfg scr ctx == some (runBatch .canceled 3 1 8 cfg scr ctx)
+end Flyt.GoIR.Gen
